@@ -99,6 +99,7 @@ type Sim struct {
 	// L2NamedOnly: only goroutines named by Go / NameGoroutine yield at lock points
 	L2NamedOnly bool
 	l2Salt     uint64
+	selSalt    uint64
 	cleanups   []func()
 	endElapsed time.Duration
 }
@@ -725,6 +726,33 @@ func (s *Sim) DrainL2(limit int) {
 	if len(s.L2Parked()) > 0 {
 		panic("sim: lock-point tasks did not drain")
 	}
+}
+
+// ---------------------------------------------------------------------------------------------
+// L3: select points (generated copies of dskit files route receive-only selects through simrt.Sel)
+
+// selOrder is the simrt.SelHook of a run: the polling order of the cases of a rewritten select is a
+// pure function of the run seed, the site and the scheduler step (never of goroutine arrival order),
+// so which of several ready cases proceeds is decided by the simulator and replays exactly. Salt 0
+// (every 4th run) polls in source order.
+func (s *Sim) selOrder(site string, n int) []int {
+	p := make([]int, n)
+	for i := range p {
+		p[i] = i
+	}
+	s.mu.Lock()
+	s.Probes["sel-point"]++
+	s.mu.Unlock()
+	if s.selSalt == 0 {
+		return p
+	}
+	x := splitmix(s.selSalt ^ strHash(site) ^ uint64(s.Steps)*0x9e3779b97f4a7c15)
+	for i := 0; i < n-1; i++ {
+		x = splitmix(x)
+		j := i + int(x%uint64(n-i))
+		p[i], p[j] = p[j], p[i]
+	}
+	return p
 }
 
 // Budget reports whether the run may take another step.
